@@ -61,6 +61,10 @@ def instances(tier):
     for nf in ("inf", "nan"):
         out.append(dict(id="controller-nonfinite-%s-RK45CKSolver" % nf, kind="controller", cls="RK45CKSolver", shape=[1], nonfinite=nf, budget=b))
         out.append(dict(id="controller-implicit-aware-nonfinite-%s-RadauIIA5" % nf, kind="controller_implicit", cls="RadauIIA5", shape=[1], nonfinite=nf, budget=b))
+    # the controller of a Richardson wrapper (its own safety factor) on a non-finite error estimate: rejected as well
+    for nf in ("inf", "nan"):
+        for base in (("RK4Solver",) if quick else ("RK4Solver", "EulerSolver", "ImplicitMidpoint")):
+            out.append(dict(id="controller-nonfinite-%s-richardson-%s" % (nf, base), kind="controller", cls="richardson:" + base, shape=[1], nonfinite=nf, budget=b))
     out.append(dict(id="controller-history-HeunEulerSolver", kind="controller_history", cls="HeunEulerSolver", shape=[1], budget=b))
     for meth in ("RK45", "richardson:EulerSolver", "richardson:HeunEulerSolver"):
         for leg in (False, True):
@@ -77,6 +81,8 @@ def instances(tier):
 
 def _cls(name):
     import desolver.integrators as I
+    if name.startswith("richardson:"):
+        return I.generate_richardson_integrator(getattr(I, name.split(":", 1)[1]))
     return getattr(I, name)
 
 
